@@ -1,7 +1,9 @@
 pub mod c01;
 pub mod c02;
+pub mod c03;
 pub mod c07;
 pub mod c08;
+pub mod c12;
 pub mod c15;
 pub mod c16;
 pub mod c19;
@@ -13,8 +15,10 @@ pub fn registry() -> Vec<PropEntry> {
 	vec![
 		PropEntry { id: "C01", level: "exploration", check: c01::check, replay: c01::replay },
 		PropEntry { id: "C02", level: "exploration", check: c02::check, replay: c02::replay },
+		PropEntry { id: "C03", level: "exploration", check: c03::check, replay: c03::replay },
 		PropEntry { id: "C07", level: "exploration", check: c07::check, replay: c07::replay },
 		PropEntry { id: "C08", level: "exploration", check: c08::check, replay: c08::replay },
+		PropEntry { id: "C12", level: "exploration", check: c12::check, replay: c12::replay },
 		PropEntry { id: "C15", level: "exploration", check: c15::check, replay: c15::replay },
 		PropEntry { id: "C16", level: "exploration", check: c16::check, replay: c16::replay },
 		PropEntry { id: "C19", level: "exploration", check: c19::check, replay: c19::replay },
